@@ -44,6 +44,17 @@ def exhaustive(depth):
             yield ops
 
 
+# initial values beyond one and two bytes (the counter is an int: SEM_VALUE_MAX is INT_MAX), names that differ only in
+# their first byte (s0/s1) or only in their last byte after 290 equal ones (s2/s3), all four names alive at once
+DIRECTED = [
+    ["0 new-sem 0 s0 300 CREATE", "obs", "1 new-sem 1 s0 7 OPEN", "1 acq 1", "0 rel 0", "0 rel 0", "obs", "2 new-sem 2 s0 257 CREATE", "obs", "1 rel 1", "obs"],
+    ["0 new-sem 0 s1 70000 OPEN", "obs", "1 new-sem 1 s1 1 OPEN", "1 acq 1", "1 acq 1", "obs"],
+    ["0 new-sem 0 s0 1 OPEN", "1 new-sem 1 s1 2 OPEN", "2 new-sem 2 s2 3 OPEN", "0 new-sem 3 s3 4 OPEN", "obs", "0 acq 0", "obs", "1 rel 1", "obs", "2 acq 2", "obs", "0 rel 3", "obs",
+     "1 new-sem 4 s0 5 CREATE", "obs", "2 own 2", "2 free 2", "obs", "1 free 1", "obs", "0 free 3", "obs", "1 free 4", "obs"],
+    ["0 new-sem 0 s1 2 CREATE", "1 new-sem 1 s0 0 OPEN", "obs", "1 own 1", "1 free 1", "obs", "0 acq 0", "0 acq 0", "obs", "2 new-sem 2 s0 1 OPEN", "obs"],
+]
+
+
 def crash_scenarios():
     rec = lambda v: ["1 new-sem 8 s0 0 OPEN", "1 own 8", "1 free 8", "obs", "1 new-sem 9 s0 %d CREATE" % v, "obs",
                      "2 new-sem 10 s0 7 OPEN"] + (["2 acq 10"] if v else []) + ["0 new-sem 11 s0 5 OPEN", "0 rel 11"]
@@ -118,18 +129,19 @@ def run(chk):
     nr = 600 if thorough else 250
     rnd = [ipc.prefilter(ipc.gen_history(rng, chk, rng.choice([8, 25, 70]), sem_w=1.0, shm_w=0.0)) for _ in range(nr)]
 
+    R.run(DIRECTED, batch=1)
     R.run(corpus + crash + eintr, batch=20)
     R.run(ex, batch=40)
     R.run(rnd, batch=10)
     conc = [ipc.prefilter(c) for c in concurrent_create_cases()]
     chk.cov["concurrent_create_schedules_model_tie_only"] = len(conc)
     R.run_model_only(conc)
-    if thorough:
-        for (n, v, it) in ((6, 1, 3000), (8, 3, 3000), (12, 2, 1500)):
-            ipc.run_stress(chk, exe, ["stress-sem", n, v, it], "C06 v-exclusion stress")
-    R.conclude(crash + eintr + ex[:400] + rnd, "C06 named semaphore")
+    # real processes blocking in p_semaphore_acquire and woken by releases of the others (quick: short runs)
+    for (n, v, it) in (((6, 1, 3000), (8, 3, 3000), (12, 2, 1500)) if thorough else ((3, 1, 400), (6, 2, 300))):
+        ipc.run_stress(chk, exe, ["stress-sem", n, v, it], "C06 v-exclusion stress")
+    R.conclude(DIRECTED + crash + eintr + ex[:400] + rnd, "C06 named semaphore")
     chk.cov["harness_leftovers_in_dev_shm"] = fam.leftovers
-    chk.cov["rule"] = ("op files over 3 worker processes x 4 names x 16 handles: new OPEN/CREATE (init 0..3), acquire only when the model has a unit, release, take_ownership, free, SIGKILL of idle processes; "
+    chk.cov["rule"] = ("op files over 3 worker processes x 4 names (two differing only in the first byte, with a percent sign and non-ASCII bytes; two ~300 bytes long differing only in the last byte) x 16 handles: new OPEN/CREATE (init 0..3, 257, 300, 70000), acquire only when the model has a unit, release, take_ownership, free, SIGKILL of idle processes; "
                        "after every op the value of every name (drained through a fresh OPEN handle in an observer process%s), presence of /dev/shm/sem.<key> and the system calls made are compared with the model; "
                        "crash: SIGKILL before/after every system call of new/free/acquire/release (9 scenarios), then open/take_ownership/free/create(v); EINTR n<=6 at every k; "
                        "exhaustive: all legal call sequences of length %d on one name from two processes; distinct by op-file hash, non-trivial = more than one op"
